@@ -9,9 +9,12 @@ private def intsOf (s : String) : List Int :=
 private def nth (l : List Int) (i : Nat) : Int := l.getD i 0
 
 /-- decode one command of harness/src/suites/c28.rs (only the modelled ones) -/
-def c28Cmd (c : String) : Option Cmd :=
+def c28Cmd (st : State) (c : String) : Option Cmd :=
   let op := (c.take 2).toString
-  let a := intsOf (c.drop 2).toString
+  -- a leading `S` stands for the index of the currently selected sheet
+  let rest := (c.drop 2).toString
+  let rest := if rest.startsWith "S" then toString st.selected ++ (rest.drop 1).toString else rest
+  let a := intsOf rest
   match op with
   | "ss" => some (.selSheet (nth a 0).toNat)
   | "sc" => some (.selCell (nth a 0) (nth a 1))
@@ -29,6 +32,22 @@ def c28Cmd (c : String) : Option Cmd :=
   | "mv" => some (.moveSheet (nth a 0).toNat (nth a 1).toNat)
   | "un" => some .undo
   | "re" => some .redo
+  | "tl" => some (.setTopLeft (nth a 0) (nth a 1))
+  | "ww" => some (.setWinW (nth a 0))
+  | "wh" => some (.setWinH (nth a 0))
+  | "pd" => some .pageDown
+  | "pu" => some .pageUp
+  | "eL" => some (.edge .left)
+  | "eR" => some (.edge .right)
+  | "eU" => some (.edge .up)
+  | "eD" => some (.edge .down)
+  | "xL" => some (.expand .left)
+  | "xR" => some (.expand .right)
+  | "xU" => some (.expand .up)
+  | "xD" => some (.expand .down)
+  | "hr" => some (.hideRows (nth a 0).toNat (nth a 1) (nth a 2) (nth a 3 != 0))
+  | "hc" => some (.hideCols (nth a 0).toNat (nth a 1) (nth a 2) (nth a 3 != 0))
+  | "in" => some (.input (nth a 0).toNat (nth a 1) (nth a 2))
   | _ => none
 
 private def summary (s : State) : String :=
@@ -36,24 +55,24 @@ private def summary (s : State) : String :=
   let view := match s.sheets[s.selected]? with
     | some sh =>
       let v := sh.view
-      s!"{v.row},{v.col},{v.r1},{v.c1},{v.r2},{v.c2}"
+      s!"{v.row},{v.col},{v.r1},{v.c1},{v.r2},{v.c2}@{v.top},{v.left}"
     | none => "-"
   s!"{s.selected}/{s.sheets.length}/{vis}/{view}"
 
 /-- `c28 hist <cmd>;<cmd>;…` → the state summary after every step, joined by `|` -/
 def c28 (args : List String) : String :=
   match args with
-  | ["hist", h] =>
+  | [_, h] =>
     let cmds := (h.splitOn ";").filter (· ≠ "")
     let rec go (s : State) (cs : List String) (acc : List String) : String :=
       match cs with
       | [] => "|".intercalate acc.reverse
       | c :: rest =>
-        match c28Cmd c with
+        match c28Cmd s c with
         | some cmd => let s' := step s cmd; go s' rest (summary s' :: acc)
         | none => "bad-op"
     go State.init cmds []
-  | ["hist"] => ""
+  | [_] => ""
   | _ => "bad-op"
 
 end Driver
